@@ -16,7 +16,7 @@ def VnWF (st : St) : Prop :=
 theorem vnFind_cons (k0 : Key) (t0 : Nat) (vn : List (Key × Nat)) (k : Key) :
     vnFind ((k0, t0) :: vn) k = if k0 = k then some t0 else vnFind vn k := rfl
 
-theorem VnWF_init (l : Nat) (a : Bool) : VnWF { lab := l, always := a } := by
+theorem VnWF_init (l : Nat) (o : Opts) : VnWF { lab := l, opts := o } := by
   constructor <;> intro k <;> simp [vnFind]
 
 theorem vnAdd_spec (st : St) (k : Key) (h : VnWF st) :
